@@ -7,9 +7,14 @@ package main
 import (
 	"errors"
 	"fmt"
+	"net/http/httptest"
 	"runtime"
 	"runtime/debug"
+	"sort"
 	"strings"
+
+	"github.com/Oudwins/zog/parsers/zjson"
+	"github.com/Oudwins/zog/zhttp"
 
 	z "github.com/Oudwins/zog"
 	p "github.com/Oudwins/zog/internals"
@@ -38,6 +43,71 @@ func plantDirt() {
 		sb := &strings.Builder{}
 		sb.WriteString("STALE")
 		p.StringBuilderPool.Put(sb)
+	}
+}
+
+// ---- front-end calls whose issue comes from the data-provider factory (decode failures) ----
+
+type decodeCall struct {
+	front string // zjson | zhttp-json | zhttp-form
+	body  string
+	fmt   string
+	ptr   bool
+}
+
+type decodeDest struct {
+	Name string `json:"name"`
+}
+
+func (d decodeCall) run() z.ZogIssueMap {
+	schema := z.Struct(z.Schema{"name": z.String().Required().Min(3)})
+	c := &eng.Case{Fmt: d.fmt}
+	opts, restore := c.ExecOpts()
+	defer restore()
+	var data any
+	switch d.front {
+	case "zjson":
+		data = zjson.Decode(strings.NewReader(d.body))
+	case "zhttp-json":
+		req := httptest.NewRequest("POST", "/", strings.NewReader(d.body))
+		req.Header.Set("Content-Type", "application/json")
+		data = zhttp.Request(req)
+	default:
+		req := httptest.NewRequest("POST", "/", strings.NewReader(d.body))
+		req.Header.Set("Content-Type", "application/x-www-form-urlencoded")
+		data = zhttp.Request(req)
+	}
+	if d.ptr {
+		var dst *decodeDest
+		return z.Ptr(schema).Parse(data, &dst, opts...)
+	}
+	var dst decodeDest
+	return schema.Parse(data, &dst, opts...)
+}
+
+func mapLine(m z.ZogIssueMap) string {
+	keys := make([]string, 0, len(m))
+	for k := range m {
+		keys = append(keys, k)
+	}
+	sort.Strings(keys)
+	var b strings.Builder
+	for _, k := range keys {
+		b.WriteString(k + "=[")
+		for _, i := range m[k] {
+			fmt.Fprintf(&b, "{%s|%s|%s|%v|%s|%v}", i.Code, i.Path, i.Dtype, i.Params, i.Message, i.Err != nil)
+		}
+		b.WriteString("];")
+	}
+	return b.String()
+}
+
+func genDecodeCall(r *rng.R) decodeCall {
+	return decodeCall{
+		front: rng.Pick(r, []string{"zjson", "zjson", "zhttp-json", "zhttp-form"}),
+		body:  rng.Pick(r, []string{"null", "null", "{bad", "", "[]", `{"name":"ab"}`, `{"name":"abcd"}`, "name=%zz", "name=ab"}),
+		fmt:   rng.Pick(r, []string{"", "", "exec:en", "exec:es", "i18n:es", "i18n:-"}),
+		ptr:   r.P(1, 4),
 	}
 }
 
@@ -132,6 +202,70 @@ func streamPool(seed uint64, n int) (*Summary, error) {
 		}
 		if len(sum.Samples) < 2 && nontriv {
 			sum.Samples = append(sum.Samples, line+" => "+refLine)
+		}
+	}
+	// ---- decode-failure calls: issues that come from a data-provider factory ----
+	for i := 0; i < n; i++ {
+		r := root.Fork()
+		probe := genDecodeCall(r)
+		p.ClearPools()
+		want := mapLine(probe.run())
+		p.ClearPools()
+		type held struct {
+			m    z.ZogIssueMap
+			snap string
+		}
+		var live []held
+		calls := r.Range(1, 5)
+		desc := []string{}
+		for k := 0; k < calls; k++ {
+			var m z.ZogIssueMap
+			if r.P(2, 3) {
+				d := genDecodeCall(r)
+				m = d.run()
+				desc = append(desc, fmt.Sprintf("%+v", d))
+			} else {
+				hg := &eng.Gen{R: r.Fork()}
+				res := eng.Run(hg.Case(k))
+				m = res.RawMap
+				desc = append(desc, "engine-case")
+			}
+			if m == nil {
+				continue
+			}
+			if r.P(1, 3) {
+				z.Issues.CollectMap(m)
+				desc[len(desc)-1] += " +CollectMap"
+			} else {
+				live = append(live, held{m, mapLine(m)})
+			}
+		}
+		got := probe.run()
+		sum.Evaluations++
+		caseDesc := fmt.Sprintf("history %v ; probe %+v", desc, probe)
+		if gl := mapLine(got); gl != want {
+			sum.addViolation("C07", Mismatch{Case: caseDesc, Impl: gl, Model: want, What: "a decode-failure probe depends on the earlier call history"})
+		}
+		// results the caller still holds: not aliased by the probe's issues, not modified by later calls
+		for _, h := range live {
+			if now := mapLine(h.m); now != h.snap {
+				sum.addViolation("C07", Mismatch{Case: caseDesc, Impl: now, Model: h.snap, What: "a result still held by the caller was modified by a later call"})
+			}
+			for _, l := range h.m {
+				for _, a := range l {
+					for _, l2 := range got {
+						for _, b := range l2 {
+							if a == b {
+								sum.addViolation("C07", Mismatch{Case: caseDesc, What: "the probe returned an issue object that an earlier, uncollected result still holds"})
+							}
+						}
+					}
+				}
+			}
+		}
+		if !distinct[caseDesc] {
+			distinct[caseDesc] = true
+			sum.Nontrivial++
 		}
 	}
 	p.ClearPools()
